@@ -1,0 +1,6 @@
+//go:build !verif
+
+package runs
+
+// no-op unless built with the verif tag
+func observeTemplate(r *run, template string, isValue bool) {}
